@@ -52,6 +52,16 @@ template<typename T, size_t M, size_t NL, size_t PM, size_t PN> struct FpPart<T,
     }
 };
 
+template<typename T, size_t NL, size_t PN, bool One = (NL == 1)> struct OuterPart {
+    static void run(const Tensor<T,PN>& cv, Fail& fail) {
+        Tensor<T,PN> v = cv;
+        Tensor<T,NL,NL> o = outer(v(fseq<1, 1 + (int)NL>()), v(fseq<2, 2 + 2 * (int)NL, 2>()));
+        for (size_t i = 0; i < NL; ++i) for (size_t j = 0; j < NL; ++j) VU_CHECK(o(i, j) == v(1 + i) * v(2 + 2 * j), "outer(v(f),v(f:2)) (%zu,%zu)", i, j);
+    }
+};
+// outer() of two one-element vectors is ambiguous in the library (nothing to do with slices): skipped
+template<typename T, size_t NL, size_t PN> struct OuterPart<T, NL, PN, true> { static void run(const Tensor<T,PN>&, Fail&) {} };
+
 template<typename T, size_t M, size_t NL>
 static void run() {
     constexpr size_t PM = M + 3, PN = 2 * NL + 3;
@@ -104,6 +114,12 @@ static void run() {
           VU_CHECK(sum(A(fseq<1, 1 + (int)M>(), fseq<2, 2 + 2 * (int)NL, 2>())) == s2, "sum(A(fseq,fseq:2))");
           VU_CHECK(min(A(r0, c2)) == mn, "min(A(v))=%g want %g", (double)min(A(r0, c2)), (double)mn);
           VU_CHECK(max(A(r0, c2)) == mx, "max(A(v))=%g want %g", (double)max(A(r0, c2)), (double)mx);
+          { constexpr size_t n = M * NL, VS = Tensor<T,4>::simd_vector_type::Size; const size_t tail0 = n / VS * VS;
+            const size_t poss[3] = {0, tail0 < n ? tail0 : n - 1, n - 1};
+            for (size_t q = 0; q < 3; ++q) { const size_t pi = poss[q] / NL, pj = poss[q] % NL;
+              Tensor<T,PM,PN> A2 = A; A2(1 + pi, 2 + 2 * pj) = (T)-5; VU_CHECK(min(A2(r0, c2)) == (T)-5, "min(A(v)) with the minimum at flat position %zu = %g", poss[q], (double)min(A2(r0, c2)));
+              Tensor<T,PM,PN> A3 = A; A3(1 + pi, 1 + pj) = (T)99; VU_CHECK(max(A3(r0, c1)) == (T)99, "max(A(v)) with the maximum at flat position %zu = %g", poss[q], (double)max(A3(r0, c1)));
+              const Tensor<T,PM,PN>& cA3 = A3; VU_CHECK(max(cA3(fseq<1, 1 + (int)M>(), fseq<1, 1 + (int)NL>())) == (T)99, "max(cA(f,f)) with the maximum at flat position %zu", poss[q]); } }
           { T got = inner(A(fseq<1, 1 + (int)M>(), fseq<1, 1 + (int)NL>()), B(fseq<1, 1 + (int)M>(), fseq<2, 2 + 2 * (int)NL, 2>())); VU_CHECK(got == ip, "inner(A(f,f),B(f,f:2))=%g want %g", (double)got, (double)ip); }
           T sv = 0; for (size_t j = 0; j < NL; ++j) sv += v(2 + 2 * j); VU_CHECK(sum(v(c2)) == sv, "sum(v(seq:2))=%g want %g", (double)sum(v(c2)), (double)sv);
           T s3 = 0; FORIJ s3 += AT1(i, j) * BT1(i, j); VU_CHECK(sum(A(r0, c1) * B(r0, c1)) == s3, "sum(A(v)*B(v))=%g want %g", (double)sum(A(r0, c1) * B(r0, c1)), (double)s3); }
@@ -115,7 +131,7 @@ static void run() {
           for (size_t i = 0; i < M; ++i) for (size_t k = 0; k < M; ++k) { T s = 0; for (size_t j = 0; j < NL; ++j) s += AT1(i, j) * BT2(k, j); VU_CHECK(P(i, k) == s, "A(f,f)%%trans(B(f,f)) (%zu,%zu)", i, k); } }
         { step = 27; Tensor<T,M> w = matmul(A(fseq<1, 1 + (int)M>(), fseq<1, 1 + (int)NL>()), v(fseq<2, 2 + 2 * (int)NL, 2>()));
           for (size_t i = 0; i < M; ++i) { T s = 0; for (size_t j = 0; j < NL; ++j) s += AT1(i, j) * v(2 + 2 * j); VU_CHECK(w(i) == s, "matmul(A(f,f),v(f:2)) (%zu)", i); } }
-        { step = 28; Tensor<T,NL,NL> o = outer(v(fseq<1, 1 + (int)NL>()), v(fseq<2, 2 + 2 * (int)NL, 2>())); for (size_t i = 0; i < NL; ++i) for (size_t j = 0; j < NL; ++j) VU_CHECK(o(i, j) == v(1 + i) * v(2 + 2 * j), "outer(v(f),v(f:2)) (%zu,%zu)", i, j); }
+        { step = 77; OuterPart<T, NL, PN>::run(v, fail); }
         // --- slice to slice
         { step = 29; Tensor<T,PM,PN> Z; Z.fill((T)0); Z(r0, c1) = A(r0, c2); FORIJ VU_CHECK(Z(1 + i, 1 + j) == AT2(i, j), "Z(v)=A(v) (%zu,%zu)", i, j); }
         step = 99; FpPart<T, M, NL, PM, PN>::run(A, B, fail);
